@@ -260,7 +260,15 @@ impl Session {
                                     }
                                     self.names.insert(n, if op == Op::RemEuclid { r } else { format!("(to_real {k})") });
                                 }
-                                Op::Rem | Op::Pow => panic!("engine S: operator {op:?} has no mode-R model"),
+                                Op::Rem => {
+                                    // truncating remainder: a = k*b + r, |r| < |b|, r = 0 or r has the sign of a
+                                    let (r, k) = (format!("rt{n}"), format!("kt{n}"));
+                                    self.pending += &format!(
+                                        "(declare-const {r} Real)\n(declare-const {k} Int)\n(assert (=> (not (= {sb} 0.0)) (and (= {sa} (+ (* (to_real {k}) {sb}) {r})) (< (ite (< {r} 0.0) (- {r}) {r}) (ite (< {sb} 0.0) (- {sb}) {sb})) (or (= {r} 0.0) (= (< {r} 0.0) (< {sa} 0.0))))))\n"
+                                    );
+                                    self.names.insert(n, r);
+                                }
+                                Op::Pow => panic!("engine S: operator {op:?} has no mode-R model"),
                             }
                         } else {
                             let o = match op {
